@@ -187,7 +187,7 @@ Plan generate_plan(const std::string& prop, unsigned long long vseed, unsigned l
     hc.text.max_len = thorough ? 64 : 48;
     hc.text.max_segs = thorough && r.chance(300) ? 7 : 5;
     hc.text.mutate_per1024 = r.pick(std::vector<int>{0, 60, 120, 250});
-    if (r.chance(thorough ? 20 : 6)) { hc.text.long_mode = true; hc.text.max_len = 2000; }   // a few long inputs (parser recursion depth, int lengths)
+    if (r.chance(thorough ? 20 : 8)) { hc.text.long_mode = true; hc.text.max_len = 6000; }   // a few long inputs (parser recursion depth, int lengths)
     hc.max_ops = thorough ? 12 : 9;
     // swarm: the operation mix differs from run to run
     switch (r.range(0, 5)) {
